@@ -633,7 +633,12 @@ func (u *Unit) execTypeSwitch(st *State, x *ast.TypeSwitchStmt) *State {
 		b.assume(sNot(c))
 		if len(cc.List) == 1 && single != nil && !isInterface(single) {
 			_, unbox, _ := u.sc.boxFns(single)
-			bindClause(a, cc, Val{T: app(unbox, v.T), Ty: single, So: u.sortOf(single)})
+			uv := Val{T: app(unbox, v.T), Ty: single, So: u.sortOf(single)}
+			// a value of a concrete type is well-formed (slice lengths inside it are >= 0)
+			if inv := u.typeInv(uv); inv != "true" {
+				a.assume(inv)
+			}
+			bindClause(a, cc, uv)
 		} else if len(cc.List) == 1 && single != nil {
 			bindClause(a, cc, Val{T: v.T, Ty: single, So: "Int"})
 		} else {
